@@ -181,8 +181,8 @@ pub fn explore(ex: &Ex) {
     // wide maps: n distinct labels plus a repeat of the label at position i placed at position j
     let sizes: Vec<usize> = match ex.scale {
         Scale::Small => vec![17],
-        Scale::Quick => vec![9, 17, 18, 33],
-        Scale::Thorough => vec![9, 16, 17, 18, 32, 33, 34, 65],
+        Scale::Quick => vec![9, 17, 18, 33, 65],
+        Scale::Thorough => vec![8, 9, 16, 17, 18, 32, 33, 34, 64, 65, 129],
     };
     ex.bound("c12.decode.wide", "map_sizes", json!(sizes));
     let mut wide: Vec<(Ty, usize)> = Vec::new();
